@@ -616,6 +616,9 @@ func (ma *modAnalysis) callees(call *ssa.CallCommon) (fns []*ssa.Function, unkno
 	case *ssa.Builtin:
 		return nil, ""
 	}
+	if ma.w.externalFuncValue(call.Value) {
+		return nil, ""
+	}
 	if sig, ok := call.Value.Type().Underlying().(*types.Signature); ok {
 		if cands, complete := ma.w.funcValueCandidates(sig); complete && len(cands) > 0 {
 			return cands, ""
